@@ -57,10 +57,11 @@ Inductive case :=
 | CDelta (w0 : list Q) (feas : bool) (delta : val) (dist : option val) (e0 : val) (a : xargs)
          (obs : outcome val) (obs_log : list ev)
 (* ClosestValidPenalty(feas, fbl, alpha, dist)(func)(ind0, *args):
-   w0, w1 = weights of individuals 0 and 1; fbl(ind0) = ind1;
-   dist = None | Some (d10, dother): distance(ind1, ind0) = d10, any other argument pair gives dother;
+   w0, w1 = weights of individuals 0 and 1; fbl(ind0) = ind1, or ind0 itself when same = true
+   (the `feasible` callback hands back the very object it was given);
+   dist = None | Some (d10, dother): distance(fbl(ind0), ind0) = d10, any other argument pair gives dother;
    func(ind0, ...) = e0, func(ind1, ...) = e1 *)
-| CClosest (w0 w1 : list Q) (feas : bool) (alpha : Q) (dist : option (val * val)) (e0 e1 : val) (a : xargs)
+| CClosest (w0 w1 : list Q) (same feas : bool) (alpha : Q) (dist : option (val * val)) (e0 e1 : val) (a : xargs)
            (obs : outcome val) (obs_log : list ev).
 
 Definition agree (m : outcome val * list ev) (obs : outcome val) (obs_log : list ev) : bool :=
@@ -82,13 +83,14 @@ Section CheckWith.
                              (match dist with None => None | Some d0 => Some (fun i => by_ind d0 (VTup []) i) end))
                       (fun self => dwrap W self (fun i _ => by_ind e0 (VTup []) i) 0%Z a) in
         agree m obs obs_log
-    | CClosest w0 w1 feas alpha dist e0 e1 a obs obs_log =>
+    | CClosest w0 w1 same feas alpha dist e0 e1 a obs obs_log =>
         let W := by_ind w0 w1 in
-        let m := bind (cinit (fun _ => feas) (fun _ => 1%Z) alpha
+        let v := if same then 0%Z else 1%Z in
+        let m := bind (cinit (fun _ => feas) (fun _ => v) alpha
                              (match dist with
                               | None => None
                               | Some (d10, dother) =>
-                                  Some (fun f i => if Z.eqb f 1 && Z.eqb i 0 then d10 else dother)
+                                  Some (fun f i => if Z.eqb f v && Z.eqb i 0 then d10 else dother)
                               end))
                       (fun self => cwrap W self (fun i _ => by_ind e0 e1 i) 0%Z a) in
         agree m obs obs_log
